@@ -86,7 +86,7 @@ def arith_items(rng, n):
             cx = cx + codes(fxm) + codes(fxm); cy = cy + codes(fym) + codes(fym)
             items.append((op, fxm, cx, (3,), fym, cy, (3,), rng.choice(['operator', 'func']), {}))
         else:
-            items.append((op, fxm, cx, None, fym, cy, None, rng.choice(['operator', 'func', 'numpy']), {}))
+            items.append((op, fxm, cx, None, fym, cy, None, rng.choice(['operator', 'func', 'numpy']), {'_build': 'indexed'} if rng.random() < 0.35 else {}))
     return items
 
 def arith(rng, tier, nshards, res):
